@@ -89,7 +89,7 @@ func replay(r *hx.Run, lines []string) {
 		case "wm":
 			n, _ := strconv.Atoi(f[1])
 			v, _ := strconv.Atoi(f[2])
-			wm = &wmWorld{r: r, pending: make([]*arrival, n), res: make([][]byte, n)}
+			wm = &wmWorld{r: r, pending: make([]*arrival, n), res: make([][]byte, n), cb: make([][]byte, n)}
 			if len(f) > 3 && f[3] == "stack" {
 				wm.m = newStackMon(v)
 			} else {
@@ -111,6 +111,16 @@ func replay(r *hx.Run, lines []string) {
 				a.arg = f[3]
 			}
 			r.Line(fmt.Sprintf("w %d %s | %s", t, opLine(a), wm.arrive(a)), "ok")
+		case "wg":
+			a, _ := strconv.Atoi(f[1])
+			b, _ := strconv.Atoi(f[2])
+			if wm == nil || wm.m.kind() != "stack" || wm.m.value() != 0 || a >= len(wm.actors) || b >= len(wm.actors) || a == b ||
+				wm.pending[a] != nil || wm.pending[b] != nil || wm.actors[a].state.Load() != stIdle || wm.actors[b].state.Load() != stIdle {
+				r.Line(l, "not-applicable")
+
+				continue
+			}
+			r.Line(fmt.Sprintf("wg %d %d | %s", a, b, wm.arriveGap(a, b)), "ok")
 		case "seq":
 			var ans string
 			if f[1] == "sm" {
@@ -127,6 +137,32 @@ func replay(r *hx.Run, lines []string) {
 	}
 	if wm != nil && !wm.dead {
 		wm.releaseAll(r)
+	}
+}
+
+// gapCorpus: SignalShutdown arriving while PopOrWait evaluates its wait condition — alone, with a second
+// PopOrWait already parked, and after the stack has been used.
+func gapCorpus(r *hx.Run) {
+	for variant := 0; variant < 3; variant++ {
+		r.Case(0)
+		n := 3
+		w := &wmWorld{r: r, m: newStackMon(0), pending: make([]*arrival, n), res: make([][]byte, n), cb: make([][]byte, n)}
+		for i := 0; i < n; i++ {
+			w.actors = append(w.actors, newActor())
+		}
+		r.Line("wm 3 0 stack", "ok")
+		pre := [][]arrival{nil, {{t: 2, op: "poporwait"}}, {{t: 2, op: "add", arg: "1"}, {t: 2, op: "trypop"}}}[variant]
+		for _, a := range pre {
+			r.Line(fmt.Sprintf("w %d %s | %s", a.t, opLine(a), w.arrive(a)), "ok")
+		}
+		r.Line(fmt.Sprintf("wg 0 1 | %s", w.arriveGap(0, 1)), "ok")
+		r.Count("stack-op:shutdown-inside-callback")
+		r.Nontrivial(fmt.Sprintf("stackgap:%d", variant))
+		if !w.dead {
+			w.releaseAll(r)
+		}
+		retire(w.actors)
+		r.Sample(r.CaseLines())
 	}
 }
 
@@ -157,6 +193,7 @@ func corpus(r *hx.Run) {
 	seqCase(r, "dagc", []string{"rlock:7", "unlock:7"})
 	seqCase(r, "dagc", []string{"lock:7", "runlock:7"})
 	seqCase(r, "dagc", []string{"rlock:1,2", "runlock:2,1", "runlock:1"})
+	gapCorpus(r)
 	dg := func(n, e int, as ...arrival) { runDagCase(r, 0, n, e, as, 3, false) }
 	dg(3, 3, arrival{0, "lock", "0"}, arrival{1, "lock", "1"}, arrival{2, "rlock", "0,1"}, arrival{0, "unlock", "0"}, arrival{1, "unlock", "1"}) // the example of dagmutex.go
 	dg(3, 2, arrival{0, "rlock", "0,1"}, arrival{1, "lock", "1"}, arrival{2, "rlock", "1"}, arrival{0, "runlock", "1,0"})
